@@ -1,6 +1,6 @@
-(* C11 — the statement language into which the translator (tools/gen_threshold_c11.py) renders the
-   body of threshold.get_threshold, and its interpreter.  The generated program
-   [Gen.ThresholdC11.get_threshold_prog] is a term of [stmt]; every theorem about the clamp logic
+(* C11 — the term language into which the translator (tools/gen_threshold_c11.py) renders the
+   body of threshold.get_threshold by symbolic evaluation, and its interpreter.  The generated program
+   [Gen.ThresholdC11.get_threshold_prog] is a [program]; every theorem about the clamp logic
    is stated about [run … get_threshold_prog], so it is re-proved whenever threshold.py changes.
    Also: the access classes of the crop-first analysis.  Definitions only. *)
 From Coq Require Import ZArith QArith List Bool String.
@@ -29,65 +29,61 @@ Definition rand_ok (u : rand_use) : bool :=
   match u with Unseeded _ => false | _ => true end.
 
 (* ---------------------------------------------------------------- language *)
-Inductive reg : Type := RG | RLo | RHi | RL.
-  (* global_threshold, threshold_range_min, threshold_range_max, local_threshold *)
-Inductive expr : Type :=
-| EReg (r : reg)
-| ECf                                   (* threshold_correction_factor *)
-| EConst (v : Q)                        (* float literal: exact value of the double (source text: Gen, get_threshold_consts) *)
-| EMul (a b : expr)
-| EMax (a b : expr)
-| EMin (a b : expr).
-Inductive stmt : Type :=
-| SSkip
-| SSeq (a b : stmt)
-| SCallGlobal (r : reg)                 (* r = get_global_threshold(method, image, mask, **kw) *)
-| SCallAdaptive (r : reg)               (* r = get_adaptive_threshold(method, image, RG, mask, window, **kw) *)
-| SCallPerObject (r : reg)              (* r = get_per_object_threshold(method, image, RG, mask, labels, RLo, RHi, **kw) *)
-| SSet (r : reg) (e : expr)
-| SIfNotNone (r : reg) (body : stmt)    (* if not r is None: body *)
-| SIfArray (r : reg) (thn els : stmt)   (* if isinstance(r, np.ndarray): thn else: els *)
-| SDispatch (g a p : stmt)              (* if modifier == GLOBAL: g elif ADAPTIVE: a elif PER_OBJECT: p else: raise *)
-| SClampLow (r b : reg)                 (* r[r < b] = b *)
-| SClampHigh (r b : reg)                (* r[r > b] = b *)
-| SSentinel (r : reg) (c : expr).       (* if modifier == PER_OBJECT and labels is not None: r[labels == 0] = c *)
+(* The translator evaluates the body of get_threshold SYMBOLICALLY (an environment from local names to
+   terms; assignments to parameters or to fresh locals just update it; if-statements merge the two
+   environments variable by variable) and emits the terms of the two returned values plus the condition
+   under which the call raises.  Any source with the same dataflow yields the same terms. *)
+Inductive modifier : Type := MGlobal | MAdaptive | MPerObject.
+Inductive term : Type :=
+| TRawG                                 (* get_global_threshold(method, image, mask, **kw) *)
+| TRawAd                                (* get_adaptive_threshold(method, image, _, mask, window, **kw) *)
+| TRawPo                                (* get_per_object_threshold(method, image, _, mask, labels, _, _, **kw) *)
+| TCf                                   (* threshold_correction_factor *)
+| TLo | THi                             (* threshold_range_min / max as passed by the caller *)
+| TConst (v : Q)                        (* float literal: exact value of the double (source text: Gen, get_threshold_consts) *)
+| TMul (a b : term)
+| TMax (a b : term)                     (* Python max(a, b) *)
+| TMin (a b : term)
+| TClampLow (a b : term)                (* a[a < b] = b *)
+| TClampHigh (a b : term)               (* a[a > b] = b *)
+| TSentinel (a c : term)                (* a[labels == 0] = c *)
+| TIf (c : cond) (a b : term)
+with cond : Type :=
+| CNotNone (t : term)                   (* t is not None *)
+| CIsArray (t : term)                   (* isinstance(t, np.ndarray) *)
+| CMod (k : modifier)                   (* threshold_modifier == TM_k *)
+| CLabels.                              (* labels is not None *)
+Inductive rterm : Type := RNever | RAlways | RIf (c : cond) (a b : rterm).    (* does the call raise (explicitly)? *)
+Record program : Type := mkProg { p_local : term; p_global : term; p_raises : rterm }.
 
-(* the float literals of a program, in source order *)
-Fixpoint expr_consts (e : expr) : list Q :=
-  match e with
-  | EReg _ | ECf => []
-  | EConst v => [v]
-  | EMul a b | EMax a b | EMin a b => expr_consts a ++ expr_consts b
+(* the float literals of a term, left to right *)
+Fixpoint term_consts (t : term) : list Q :=
+  match t with
+  | TConst v => [v]
+  | TMul a b | TMax a b | TMin a b | TClampLow a b | TClampHigh a b | TSentinel a b => term_consts a ++ term_consts b
+  | TIf c a b => cond_consts c ++ term_consts a ++ term_consts b
+  | _ => []
+  end
+with cond_consts (c : cond) : list Q :=
+  match c with
+  | CNotNone t | CIsArray t => term_consts t
+  | _ => []
   end.
-Fixpoint stmt_consts (p : stmt) : list Q :=
-  match p with
-  | SSkip | SCallGlobal _ | SCallAdaptive _ | SCallPerObject _ | SClampLow _ _ | SClampHigh _ _ => []
-  | SSeq a b => stmt_consts a ++ stmt_consts b
-  | SSet _ e => expr_consts e
-  | SIfNotNone _ b => stmt_consts b
-  | SIfArray _ a b => stmt_consts a ++ stmt_consts b
-  | SDispatch a b c => stmt_consts a ++ stmt_consts b ++ stmt_consts c
-  | SSentinel _ e => expr_consts e
+Definition qsame (a b : Q) : bool := (Qnum a =? Qnum b)%Z && (Qden a =? Qden b)%positive.
+Fixpoint dedup (l : list Q) : list Q :=
+  match l with
+  | [] => []
+  | x :: r => x :: filter (fun y => negb (qsame x y)) (dedup r)
   end.
+(* the distinct literals of a program in order of first appearance (local value, then global value) *)
+Definition prog_consts (p : program) : list Q := dedup (term_consts (p_local p) ++ term_consts (p_global p)).
 
 Inductive val : Type := VNone | VNum (q : Q) | VArr (a : list Q).
-Record env : Type := mkEnv { e_g : val; e_lo : val; e_hi : val; e_l : val }.
-Inductive modifier : Type := MGlobal | MAdaptive | MPerObject.
 (* what the interpreter is given: the modifier, the correction factor, the raw results of the
    three callees (obtained by the harness from the staged functions), labels == 0 when labels
    were passed *)
 Record inputs : Type := mkIn
   { in_mod : modifier; in_cf : Q; in_raw_g : Q; in_raw_l : list Q; in_lab0 : option (list bool) }.
-
-Definition get (r : reg) (s : env) : val :=
-  match r with RG => e_g s | RLo => e_lo s | RHi => e_hi s | RL => e_l s end.
-Definition set (r : reg) (v : val) (s : env) : env :=
-  match r with
-  | RG => mkEnv v (e_lo s) (e_hi s) (e_l s)
-  | RLo => mkEnv (e_g s) v (e_hi s) (e_l s)
-  | RHi => mkEnv (e_g s) (e_lo s) v (e_l s)
-  | RL => mkEnv (e_g s) (e_lo s) (e_hi s) v
-  end.
 
 Section Interp.
   Variable mul : Q -> Q -> Q.             (* scalar product: [fmul] (binary64) when run, any function in the theorems *)
@@ -98,75 +94,88 @@ Section Interp.
   Variable amul : Q -> Q -> Q.
   Variable cast : Q -> Q.
   Variable inp : inputs.
+  Variables lo hi : option Q.
 
-  (* None = the Python expression raises (an operand is None, or max/min of an array) *)
-  Fixpoint eval (e : expr) (s : env) : option val :=
-    match e with
-    | EReg r => Some (get r s)
-    | ECf => Some (VNum (in_cf inp))
-    | EConst v => Some (VNum v)
-    | EMul a b =>
-        match eval a s, eval b s with
+  Definition of_opt (o : option Q) : val := match o with Some q => VNum q | None => VNone end.
+  Definition sentinel (c : Q) (a : list Q) (lab0 : list bool) : list Q :=
+    map (fun p : Q * bool => if snd p then c else fst p) (combine a lab0).
+  Definition mod_eqb (a b : modifier) : bool :=
+    match a, b with MGlobal, MGlobal | MAdaptive, MAdaptive | MPerObject, MPerObject => true | _, _ => false end.
+
+  (* None = the Python expression raises (an operand is None, max/min of an array, …) *)
+  Fixpoint eval (t : term) : option val :=
+    match t with
+    | TRawG => Some (VNum (in_raw_g inp))
+    | TRawAd | TRawPo => Some (VArr (in_raw_l inp))
+    | TCf => Some (VNum (in_cf inp))
+    | TLo => Some (of_opt lo)
+    | THi => Some (of_opt hi)
+    | TConst v => Some (VNum v)
+    | TMul a b =>
+        match eval a, eval b with
         | Some (VNum x), Some (VNum y) => Some (VNum (mul x y))
         | Some (VArr xs), Some (VNum y) => Some (VArr (map (fun x => amul x (cast y)) xs))
         | _, _ => None
         end
-    | EMax a b =>
-        match eval a s, eval b s with
+    | TMax a b =>
+        match eval a, eval b with
         | Some (VNum x), Some (VNum y) => Some (VNum (qmax x y))
         | _, _ => None
         end
-    | EMin a b =>
-        match eval a s, eval b s with
+    | TMin a b =>
+        match eval a, eval b with
         | Some (VNum x), Some (VNum y) => Some (VNum (qmin x y))
         | _, _ => None
         end
-    end.
-
-  Definition sentinel (c : Q) (a : list Q) (lab0 : list bool) : list Q :=
-    map (fun p : Q * bool => if snd p then c else fst p) (combine a lab0).
-
-  Fixpoint exec (p : stmt) (s : env) : option env :=
-    match p with
-    | SSkip => Some s
-    | SSeq a b => match exec a s with Some s1 => exec b s1 | None => None end
-    | SCallGlobal r => Some (set r (VNum (in_raw_g inp)) s)
-    | SCallAdaptive r => Some (set r (VArr (in_raw_l inp)) s)
-    | SCallPerObject r => Some (set r (VArr (in_raw_l inp)) s)
-    | SSet r e => match eval e s with Some v => Some (set r v s) | None => None end
-    | SIfNotNone r body => match get r s with VNone => Some s | _ => exec body s end
-    | SIfArray r thn els => match get r s with VArr _ => exec thn s | _ => exec els s end
-    | SDispatch g a q =>
-        match in_mod inp with MGlobal => exec g s | MAdaptive => exec a s | MPerObject => exec q s end
-    | SClampLow r b =>
-        match get r s, get b s with
-        | VArr a, VNum x => Some (set r (VArr (map (clamp_lo (cast x)) a)) s)
+    | TClampLow a b =>
+        match eval a, eval b with
+        | Some (VArr xs), Some (VNum y) => Some (VArr (map (clamp_lo (cast y)) xs))
         | _, _ => None
         end
-    | SClampHigh r b =>
-        match get r s, get b s with
-        | VArr a, VNum x => Some (set r (VArr (map (clamp_hi (cast x)) a)) s)
+    | TClampHigh a b =>
+        match eval a, eval b with
+        | Some (VArr xs), Some (VNum y) => Some (VArr (map (clamp_hi (cast y)) xs))
         | _, _ => None
         end
-    | SSentinel r c =>
-        match in_mod inp, in_lab0 inp with
-        | MPerObject, Some lab0 =>
-            match get r s, eval c s with
-            | VArr a, Some (VNum x) => Some (set r (VArr (sentinel (cast x) a lab0)) s)
-            | _, _ => None
-            end
-        | _, _ => Some s
+    | TSentinel a c =>
+        match eval a, eval c, in_lab0 inp with
+        | Some (VArr xs), Some (VNum y), Some lab0 => Some (VArr (sentinel (cast y) xs lab0))
+        | _, _, _ => None
         end
+    | TIf c a b =>
+        match evalc c with
+        | Some true => eval a
+        | Some false => eval b
+        | None => None
+        end
+    end
+  with evalc (c : cond) : option bool :=
+    match c with
+    | CNotNone t => match eval t with Some VNone => Some false | Some _ => Some true | None => None end
+    | CIsArray t => match eval t with Some (VArr _) => Some true | Some _ => Some false | None => None end
+    | CMod k => Some (mod_eqb (in_mod inp) k)
+    | CLabels => Some (match in_lab0 inp with Some _ => true | None => false end)
+    end.
+  Fixpoint evalr (r : rterm) : option bool :=
+    match r with
+    | RNever => Some false
+    | RAlways => Some true
+    | RIf c a b => match evalc c with Some true => evalr a | Some false => evalr b | None => None end
     end.
 
-  Definition of_opt (o : option Q) : val := match o with Some q => VNum q | None => VNone end.
-  (* the whole call: returns (local_threshold, global_threshold) *)
-  Definition run (p : stmt) (lo hi : option Q) : option (val * val) :=
-    match exec p (mkEnv VNone (of_opt lo) (of_opt hi) VNone) with
-    | Some s => Some (e_l s, e_g s)
-    | None => None
+  (* the whole call: returns (local_threshold, global_threshold), None when it raises *)
+  Definition run_prog (p : program) : option (val * val) :=
+    match evalr (p_raises p) with
+    | Some false =>
+        match eval (p_local p), eval (p_global p) with
+        | Some l, Some g => Some (l, g)
+        | _, _ => None
+        end
+    | _ => None
     end.
 End Interp.
+Definition run (mul amul : Q -> Q -> Q) (cast : Q -> Q) (inp : inputs) (p : program) (lo hi : option Q) : option (val * val) :=
+  run_prog mul amul cast inp lo hi p.
 
 (* ---------------------------------------------------------------- wire *)
 Definition as_modifier (x : sx) : modifier :=
